@@ -46,10 +46,15 @@ type c01Cfg struct {
 	cr, cw, fst  bool
 	proxyK       int
 	openFileImpl bool
+	noSizes      bool // the store reports size 0 for every file
 }
 
 func (c c01Cfg) String() string {
-	return fmt.Sprintf("%s/alloc=%v/P=%d/C=%d/cr=%v/cw=%v/fstat=%v/proxyK=%d", []string{"Server", "RS-store", "RS-inmem"}[c.backend], c.alloc, c.P, c.C, c.cr, c.cw, c.fst, c.proxyK)
+	s := fmt.Sprintf("%s/alloc=%v/P=%d/C=%d/cr=%v/cw=%v/fstat=%v/proxyK=%d", []string{"Server", "RS-store", "RS-inmem"}[c.backend], c.alloc, c.P, c.C, c.cr, c.cw, c.fst, c.proxyK)
+	if c.noSizes {
+		s += "/no-sizes"
+	}
+	return s
 }
 
 type c01Env struct {
@@ -116,6 +121,8 @@ func c01Connect(u *vfUnit, cfg c01Cfg) (*c01Env, error) {
 	case 1:
 		sc.Kind = vfRS
 		e.store = vfNewStore()
+		// every third store-backed unit: a backend that does not report sizes (Stat/Fstat say 0): what is read must still be the content
+		e.store.ReportSizeZero = cfg.noSizes
 		sc.H = e.store.Handlers(vfHandlerOpt{OpenFile: cfg.openFileImpl, CmdAll: true, ListAll: true})
 	case 2:
 		sc.Kind = vfRS
@@ -258,6 +265,7 @@ func c01Run(u *vfUnit) {
 		cw:           (i/7)%2 == 0,
 		fst:          (i/11)%2 == 0,
 		openFileImpl: (i/13)%2 == 0,
+		noSizes:      (i/3)%3 == 1 && (i/9)%3 == 1,
 	}
 	if i%10 < 7 {
 		cfg.proxyK = 2 + r.Intn(15)
@@ -535,7 +543,55 @@ func c01Run(u *vfUnit) {
 			os.Remove(p)
 		}
 	}
+	c01AfterShrink(u, e)
 	if msg := e.sess.Close(); msg != "" {
 		u.Violation("session-close", cfg.String()+": "+msg, nil)
+	}
+}
+
+// c01AfterShrink: a file that was longer before (then truncated through the handle, or re-created under its name)
+// and is then written beyond its new end: the served file must hold exactly what was written since, with the gap
+// reading as zeros, never what the file held in its earlier life.
+func c01AfterShrink(u *vfUnit, e *c01Env) {
+	c := e.sess.C
+	for variant := 0; variant < 2; variant++ {
+		p := e.path(9000 + variant)
+		label := fmt.Sprintf("%s | after-shrink/%d", e.cfg, variant)
+		old := vfPattern(7000+uint64(variant), 0, 6000)
+		f, err := c.Create(p)
+		if err != nil {
+			u.Violation("open-failed", label+": "+err.Error(), nil)
+			return
+		}
+		f.WriteAt(old, 0)
+		keep := 0
+		if variant == 0 {
+			keep = 100
+			if err := f.Truncate(int64(keep)); err != nil {
+				f.Close()
+				continue // a backend without truncate support
+			}
+		} else {
+			f.Close()
+			if f, err = c.Create(p); err != nil { // O_TRUNC under the same name
+				u.Violation("open-failed", label+": "+err.Error(), nil)
+				return
+			}
+		}
+		tail := vfPattern(7100+uint64(variant), 3000, 500)
+		n, werr := f.WriteAt(tail, 3000)
+		f.Close()
+		want := make([]byte, 3500)
+		copy(want, old[:keep])
+		copy(want[3000:], tail)
+		got := e.get(p)
+		u.Count("transfers", 1)
+		u.Eval(fmt.Sprintf("after-shrink/%d/%d", e.cfg.backend, variant))
+		if werr != nil || n != len(tail) || !bytes.Equal(got, want) {
+			u.Violation("served-content:after-shrink", fmt.Sprintf("%s: WriteAt(500 bytes at 3000) = (%d, %v) on a file shrunk to %d bytes: the served file has %d bytes, expected %d; first difference at %d (the gap must read as zeros)", label, n, werr, keep, len(got), len(want), vfFirstDiff(got, want)), nil)
+		}
+		if e.cfg.backend == 0 {
+			os.Remove(p)
+		}
 	}
 }
